@@ -11,24 +11,24 @@ def Inv (cfg : Cfg) (s : SState) : Prop :=
   (s.logged = true → s.user.isSome = true) ∧ ∀ i, s.user = some i → (cfg.users[i]?).isSome = true
 
 @[simp] theorem resetRestart_logged (name : Str) (s : SState) : (resetRestart name s).logged = s.logged := by
-  unfold resetRestart; split <;> rfl
+  rfl
 @[simp] theorem resetRestart_user (name : Str) (s : SState) : (resetRestart name s).user = s.user := by
-  unfold resetRestart; split <;> rfl
+  rfl
 @[simp] theorem resetRestart_cwd (name : Str) (s : SState) : (resetRestart name s).cwd = s.cwd := by
-  unfold resetRestart; split <;> rfl
+  rfl
 @[simp] theorem resetRestart_renameFrom (name : Str) (s : SState) :
     (resetRestart name s).renameFrom = s.renameFrom := by
-  unfold resetRestart; split <;> rfl
+  rfl
 @[simp] theorem resetRestart_passive (name : Str) (s : SState) : (resetRestart name s).passive = s.passive := by
-  unfold resetRestart; split <;> rfl
+  rfl
 @[simp] theorem resetRestart_dataConn (name : Str) (s : SState) :
     (resetRestart name s).dataConn = s.dataConn := by
-  unfold resetRestart; split <;> rfl
+  rfl
 @[simp] theorem resetRestart_alive (name : Str) (s : SState) : (resetRestart name s).alive = s.alive := by
-  unfold resetRestart; split <;> rfl
+  rfl
 @[simp] theorem resetRestart_acquired (name : Str) (s : SState) :
     (resetRestart name s).acquired = s.acquired := by
-  unfold resetRestart; split <;> rfl
+  rfl
 
 theorem Inv.resetRestart {cfg : Cfg} {s : SState} (h : Inv cfg s) (name : Str) :
     Inv cfg (resetRestart name s) := by
